@@ -7,7 +7,7 @@ from props import treelib as T
 from props.common import quiet_ccp
 
 ID = "C19"
-LEAN_MODULES = ["Ccp.Props.C19"]
+LEAN_MODULES = ["Ccp.Props.C19", "Ccp.Props.RxC19"]
 RULE = ("three kinds of case. (1) intf: an interface stanza rendered from a structured description -- name = prefix + 1..3 numbers "
         "[:channel][.sub] + optional class word; ten main attributes (description, address, vrf, mtu, shutdown, bare switchport, "
         "access vlan, native vlan, allowed vlans, channel-group) under all 2^10 presence masks with values over their ranges "
@@ -54,6 +54,7 @@ LEVEL_NOTE = ("Trusted: Lean kernel; axioms propext/Classical.choice/Quot.sound 
               "The theorems' description grammar has one 'allowed vlan' line; ordinal_list_roundtrip assumes the rendered name has no whitespace "
               "(true for names without class word, not proved). stanza_family keeps the hypothesis 'no line is a banner start': an unanchored "
               "'aaa authentication fail-message' inside a description would make the line a banner start.")
+LEVEL_NOTE += (" " + "regexes_as_modelled (Ccp.RxC19): the scan set (regex calls with pattern text and flags, keyword / slice comparisons, separators) of each of the 28 modelled accessors of models_cisco.py (incl. _RE_IP_ROUTE in canonical verbose form) is re-read from /repo's AST on every run and proved equal to the literals the token matchers of Model/IosModels.lean were written for; the scan sets of CiscoIOSInterface (C15) and CiscoRange integer parsing (C14), which ordinal_list / trunk_vlans_allowed go through, are conjuncts too. An edit of any of these regexes breaks an obligation of this check.")
 EXHAUSTIVE = {"quick": False, "thorough": False}
 ASSUMPTIONS = [
     "no line-break character inside a config line; ASCII digits only",
